@@ -2,7 +2,7 @@ import Cell2v.Model.ClientServe
 /-!
 Helper lemmas for C02 (`Model/ClientServe.lean`): projections of effect lists,
 the shape of `tryCallCol`'s outcome, the per-message characterisation of
-`serveWith fixed`, and the counting invariant of histories.
+`processWith fixed`, and the counting invariant of histories.
 -/
 namespace Cell2v.ClientServe
 
@@ -90,14 +90,14 @@ theorem behResult_fst_le (svc g m : String) (v : Nat) (b : Beh) : (behResult svc
 
 
 
-theorem serve_served (c : Cfg) (s : Sess) (msg : ClientMsg) (hid : msg.id ≠ 0)
+theorem process_served (c : Cfg) (s : Sess) (msg : ClientMsg) (hid : msg.id ≠ 0)
     (svc g m : String) (v : Nat) (b : Beh) (h : served c s msg = some (svc, g, m, v, b)) :
-    serve c s msg =
+    process c s msg =
       if (splitClientRoute msg.route).1 ≠ c.frontType ∧ requestTimeout < (behResult svc g m v b).1 then
         [.invoke svc g m v, .respond timeoutMs s.sid msg.id .error]
       else [.invoke svc g m v, .respond (behResult svc g m v b).1 s.sid msg.id (behResult svc g m v b).2] := by
   unfold served target at h
-  unfold serve serveWith forward processForward serveLocal
+  unfold process processWith forward processForward serveLocal
   simp only at h ⊢
   generalize splitClientRoute msg.route = p at *
   by_cases ht : p.1 = c.frontType
@@ -129,11 +129,11 @@ theorem serve_served (c : Cfg) (s : Sess) (msg : ClientMsg) (hid : msg.id ≠ 0)
           · simp at h
         · simp [hal] at h
 
-theorem serve_unserved (c : Cfg) (s : Sess) (msg : ClientMsg) (hid : msg.id ≠ 0)
+theorem process_unserved (c : Cfg) (s : Sess) (msg : ClientMsg) (hid : msg.id ≠ 0)
     (h : served c s msg = none) :
-    ∃ d, (d = 0 ∨ d = timeoutMs) ∧ serve c s msg = [.respond d s.sid msg.id .error] := by
+    ∃ d, (d = 0 ∨ d = timeoutMs) ∧ process c s msg = [.respond d s.sid msg.id .error] := by
   unfold served target at h
-  unfold serve serveWith forward processForward serveLocal
+  unfold process processWith forward processForward serveLocal
   simp only at h ⊢
   generalize splitClientRoute msg.route = p at *
   by_cases ht : p.1 = c.frontType
@@ -169,13 +169,13 @@ theorem serve_unserved (c : Cfg) (s : Sess) (msg : ClientMsg) (hid : msg.id ≠ 
         · have hal' : inst.alive = false := by cases hx : inst.alive <;> simp_all
           exact ⟨timeoutMs, .inr rfl, by simp [hal', relay, hid]⟩
 
-theorem serve_notify (fx : Fixes) (c : Cfg) (s : Sess) (msg : ClientMsg) (hid : msg.id = 0) :
-    serveWith fx c s msg =
+theorem process_notify (fx : Fixes) (c : Cfg) (s : Sess) (msg : ClientMsg) (hid : msg.id = 0) :
+    processWith fx c s msg =
       match notified c s msg with
       | some (svc, g, m, v) => [.invoke svc g m v]
       | none => [] := by
   unfold notified target
-  unfold serveWith forward processForward serveLocal
+  unfold processWith forward processForward serveLocal
   simp only
   generalize splitClientRoute msg.route = p at *
   have hinv := tryCallCol_notify fx c
@@ -207,24 +207,52 @@ theorem serve_notify (fx : Fixes) (c : Cfg) (s : Sess) (msg : ClientMsg) (hid : 
 
 /-! ## responses of one message -/
 
-theorem responses_serve_request (c : Cfg) (s : Sess) (msg : ClientMsg) (hid : msg.id ≠ 0) :
-    ∃ d res, d ≤ lateMs ∧ responses (serve c s msg) = [(d, s.sid, msg.id, res)] := by
+theorem responses_process_request (c : Cfg) (s : Sess) (msg : ClientMsg) (hid : msg.id ≠ 0) :
+    ∃ d res, d ≤ lateMs ∧ responses (process c s msg) = [(d, s.sid, msg.id, res)] := by
   cases h : served c s msg with
   | none =>
-    obtain ⟨d, hd, he⟩ := serve_unserved c s msg hid h
+    obtain ⟨d, hd, he⟩ := process_unserved c s msg hid h
     refine ⟨d, .error, ?_, by simp [he, responses]⟩
     rcases hd with rfl | rfl <;> simp [lateMs, timeoutMs]
   | some x =>
     obtain ⟨svc, g, m, v, b⟩ := x
-    rw [serve_served c s msg hid svc g m v b h]
+    rw [process_served c s msg hid svc g m v b h]
     split
     · exact ⟨timeoutMs, .error, by simp [lateMs, timeoutMs], by simp [responses]⟩
     · exact ⟨(behResult svc g m v b).1, (behResult svc g m v b).2, behResult_fst_le svc g m v b, by simp [responses]⟩
 
-theorem responses_serve_notify (fx : Fixes) (c : Cfg) (s : Sess) (msg : ClientMsg) (hid : msg.id = 0) :
-    responses (serveWith fx c s msg) = [] := by
-  rw [serve_notify fx c s msg hid]
+theorem responses_process_notify (fx : Fixes) (c : Cfg) (s : Sess) (msg : ClientMsg) (hid : msg.id = 0) :
+    responses (processWith fx c s msg) = [] := by
+  rw [process_notify fx c s msg hid]
   split <;> simp [responses]
+
+/-! ## the envelope -/
+
+theorem envelope_of_lt (msg : ClientMsg) (h : msg.id < idWrap) : envelope msg = msg := by
+  cases msg; simp only [envelope] at *; congr; exact Nat.mod_eq_of_lt h
+
+theorem serve_eq_process (c : Cfg) (s : Sess) (msg : ClientMsg) (h : msg.id < idWrap) :
+    serve c s msg = process c s msg := by
+  unfold serve serveWith process; rw [envelope_of_lt msg h]
+
+theorem serveWith_eq_processWith (fx : Fixes) (c : Cfg) (s : Sess) (msg : ClientMsg) (h : msg.id < idWrap) :
+    serveWith fx c s msg = processWith fx c s msg := by
+  unfold serveWith; rw [envelope_of_lt msg h]
+
+@[simp] theorem envelope_id (msg : ClientMsg) : (envelope msg).id = msg.id % idWrap := rfl
+@[simp] theorem envelope_route (msg : ClientMsg) : (envelope msg).route = msg.route := rfl
+@[simp] theorem envelope_pay (msg : ClientMsg) : (envelope msg).pay = msg.pay := rfl
+
+theorem served_envelope (c : Cfg) (s : Sess) (msg : ClientMsg) : served c s (envelope msg) = served c s msg := rfl
+theorem notified_envelope (c : Cfg) (s : Sess) (msg : ClientMsg) : notified c s (envelope msg) = notified c s msg := rfl
+
+theorem responses_serve_request (c : Cfg) (s : Sess) (msg : ClientMsg) (hid : msg.id % idWrap ≠ 0) :
+    ∃ d res, d ≤ lateMs ∧ responses (serve c s msg) = [(d, s.sid, msg.id % idWrap, res)] :=
+  responses_process_request c s (envelope msg) hid
+
+theorem responses_serve_notify (fx : Fixes) (c : Cfg) (s : Sess) (msg : ClientMsg) (hid : msg.id % idWrap = 0) :
+    responses (serveWith fx c s msg) = [] :=
+  responses_process_notify fx c s (envelope msg) hid
 
 /-! ## histories -/
 
@@ -267,20 +295,20 @@ theorem total_step_adv (fx : Fixes) (c : Cfg) (st : St) (d cn i : Nat) :
 
 theorem total_step_req (c : Cfg) (st : St) (s : Sess) (msg : ClientMsg) (cn i : Nat) :
     total (step fixed c st (.req s msg)) cn i =
-      total st cn i + (if s.sid = cn ∧ msg.id = i ∧ msg.id ≠ 0 then 1 else 0) := by
+      total st cn i + (if s.sid = cn ∧ msg.id % idWrap = i ∧ msg.id % idWrap ≠ 0 then 1 else 0) := by
   simp only [total, step, wireCount_append, List.map_append]
   have hs := wireCount_split cn i st.now ((responses (serveWith fixed c s msg)).map (toPending st.now))
   have hc : wireCount cn i (((responses (serveWith fixed c s msg)).map (toPending st.now)).map Pending.wire) =
-      (if s.sid = cn ∧ msg.id = i ∧ msg.id ≠ 0 then 1 else 0) := by
-    by_cases hid : msg.id = 0
+      (if s.sid = cn ∧ msg.id % idWrap = i ∧ msg.id % idWrap ≠ 0 then 1 else 0) := by
+    by_cases hid : msg.id % idWrap = 0
     · simp [responses_serve_notify fixed c s msg hid, hid, wireCount]
     · obtain ⟨d, res, _, hr⟩ := responses_serve_request c s msg hid
-      have hr' : responses (serveWith fixed c s msg) = [(d, s.sid, msg.id, res)] := hr
+      have hr' : responses (serveWith fixed c s msg) = [(d, s.sid, msg.id % idWrap, res)] := hr
       simp only [hr', List.map_cons, List.map_nil, wireCount_cons, toPending, Pending.wire]
-      by_cases h1 : s.sid = cn ∧ msg.id = i
-      · have h2 : s.sid = cn ∧ msg.id = i ∧ msg.id ≠ 0 := ⟨h1.1, h1.2, hid⟩
+      by_cases h1 : s.sid = cn ∧ msg.id % idWrap = i
+      · have h2 : s.sid = cn ∧ msg.id % idWrap = i ∧ msg.id % idWrap ≠ 0 := ⟨h1.1, h1.2, hid⟩
         rw [if_pos h1, if_pos h2]; rfl
-      · have h2 : ¬ (s.sid = cn ∧ msg.id = i ∧ msg.id ≠ 0) := fun hh => h1 ⟨hh.1, hh.2.1⟩
+      · have h2 : ¬ (s.sid = cn ∧ msg.id % idWrap = i ∧ msg.id % idWrap ≠ 0) := fun hh => h1 ⟨hh.1, hh.2.1⟩
         rw [if_neg h1, if_neg h2]; rfl
   omega
 
@@ -296,11 +324,11 @@ theorem total_run (c : Cfg) (cn i : Nat) (hi : i ≠ 0) (ops : List Op) :
     | req s msg =>
       rw [total_step_req]
       simp only [reqCount]
-      by_cases h : s.sid = cn ∧ msg.id = i
-      · have h0 : msg.id ≠ 0 := by omega
-        have h2 : s.sid = cn ∧ msg.id = i ∧ msg.id ≠ 0 := ⟨h.1, h.2, h0⟩
+      by_cases h : s.sid = cn ∧ msg.id % idWrap = i
+      · have h0 : msg.id % idWrap ≠ 0 := by omega
+        have h2 : s.sid = cn ∧ msg.id % idWrap = i ∧ msg.id % idWrap ≠ 0 := ⟨h.1, h.2, h0⟩
         rw [if_pos h2, if_pos h]; omega
-      · have h2 : ¬ (s.sid = cn ∧ msg.id = i ∧ msg.id ≠ 0) := fun hh => h ⟨hh.1, hh.2.1⟩
+      · have h2 : ¬ (s.sid = cn ∧ msg.id % idWrap = i ∧ msg.id % idWrap ≠ 0) := fun hh => h ⟨hh.1, hh.2.1⟩
         rw [if_neg h2, if_neg h]; omega
 
 theorem total_run_zero (c : Cfg) (cn : Nat) (ops : List Op) :
@@ -314,7 +342,7 @@ theorem total_run_zero (c : Cfg) (cn : Nat) (ops : List Op) :
     | adv d => simp [total_step_adv]
     | req s msg =>
       rw [total_step_req]
-      have h2 : ¬ (s.sid = cn ∧ msg.id = 0 ∧ msg.id ≠ 0) := fun hh => hh.2.2 hh.2.1
+      have h2 : ¬ (s.sid = cn ∧ msg.id % idWrap = 0 ∧ msg.id % idWrap ≠ 0) := fun hh => hh.2.2 hh.2.1
       rw [if_neg h2]; rfl
 
 /-- nothing in flight is due later than `lateMs` from now -/
@@ -332,10 +360,10 @@ theorem dueBound_step (c : Cfg) (st : St) (op : Op) (h : DueBound st) : DueBound
     simp only [step, List.mem_append, List.mem_filter, List.mem_map] at hp
     rcases hp with hp | ⟨⟨x, hx, rfl⟩, _⟩
     · exact h p hp
-    · by_cases hid : msg.id = 0
+    · by_cases hid : msg.id % idWrap = 0
       · simp [responses_serve_notify fixed c s msg hid] at hx
       · obtain ⟨d, res, hd, hr⟩ := responses_serve_request c s msg hid
-        have hr' : responses (serveWith fixed c s msg) = [(d, s.sid, msg.id, res)] := hr
+        have hr' : responses (serveWith fixed c s msg) = [(d, s.sid, msg.id % idWrap, res)] := hr
         simp only [hr', List.mem_singleton] at hx
         subst hx
         simp only [toPending, step]; omega
